@@ -213,3 +213,78 @@ func scenarioExpiredGrantRemoved(ctx *RunCtx) {
 		}
 	}
 }
+
+// C17: resumption with identifiers nobody was handed - white space only (the mux delivers them as a
+// non-empty path segment), while sessions WITHOUT a callback id are stored: a finished flow holding its
+// code, a pushed request, a CIBA request.  Nothing may be resumed (monitor clause 5).
+func scenarioBlankCallback(ctx *RunCtx) {
+	for _, fl := range []string{"copy", "alias"} {
+		opts := []Opt{{Name: "WithScopes", Scopes: serverScopes}, {Name: "WithAuthorizationCodeGrant"}, {Name: "WithPAR", Z: 60}, {Name: "WithCIBAGrant"},
+			{Name: "WithTokenLifetime", Z: 300}}
+		g, err := NewSysGen(ctx.R, WorldSpec{Profile: "openid", Flavour: fl, Static: append(baseClients(ctx.R), cibaClients()...), Opts: opts})
+		if err != nil {
+			panic(err)
+		}
+		cred := Cred{ID: 1, OK: true}
+		p := Params{Redirect: "https://c1.example/cb", RespType: "code", Scopes: "openid email", State: "state-of-alice"}
+		pol := Pol{Kind: "PolSuccess", Sub: "alice", Granted: "openid email"}
+		page := g.do(Op{Kind: "Authorize", Client: 1, Params: p, PolicyAvail: true, Pol: Pol{Kind: "PolInProgress"}})
+		fin := g.do(Op{Kind: "Callback", Cb: page.H, Pol: pol}) // finished: the session now holds the code, no callback id
+		g.do(Op{Kind: "Par", Cred: cred, Params: p})
+		g.do(Op{Kind: "BcAuthorize", Cred: Cred{ID: 5, OK: true}, Params: Params{Scopes: "openid email", LoginHint: "bob"}, InitOK: true, Sub: "bob", Granted: "openid email"})
+		for i := range blankIDs {
+			g.do(Op{Kind: "Callback", Cb: blankBase + Handle(i), Pol: Pol{Kind: "PolSuccess", Sub: "mallory", Granted: "openid"}})
+		}
+		g.do(Op{Kind: "Callback", Cb: unknownBase + 4, Pol: pol})
+		g.do(Op{Kind: "Token", Grant: "authorization_code", Cred: cred, Code: fin.NCode, Redirect: p.Redirect, HG: "HgOk", BA: "BaApprove"})
+		ctx.AddCase(g.Case("scenario:blank-callback/" + fl))
+		ctx.AddStats(g.stats)
+	}
+}
+
+// C10: "a refresh can narrow ... and later refreshes may return to the full grant": a grant over three
+// resources, narrowed to every non-empty subset in turn (prefix and non-prefix ones, one and two members,
+// every order), each narrowing followed by a refresh for each single resource of the ORIGINAL grant and by
+// a refresh naming nothing (whose audience is the full grant again).
+func scenarioReturnToFullGrant(ctx *RunCtx) {
+	rs := []string{"https://api.example/a", "https://api.example/b", "https://api.example/c"}
+	subsets := [][]string{{rs[2]}, {rs[1]}, {rs[0]}, {rs[2], rs[0]}, {rs[1], rs[2]}, {rs[2], rs[1]}, {rs[0], rs[1]}}
+	for _, fl := range []string{"copy", "alias"} {
+		for _, client := range []int{1, 2} { // opaque and JWT (aud visible) access tokens
+			opts := []Opt{{Name: "WithScopes", Scopes: serverScopes}, {Name: "WithAuthorizationCodeGrant"},
+				{Name: "WithRefreshTokenGrant", Z: 600}, {Name: "WithTokenIntrospection"}, {Name: "WithTokenLifetime", Z: 80},
+				{Name: "WithResourceIndicators", S: rs[0], L: []string{rs[1], rs[2]}}}
+			g, err := NewSysGen(ctx.R, WorldSpec{Profile: "openid", Flavour: fl, Static: baseClients(ctx.R), Opts: opts})
+			if err != nil {
+				panic(err)
+			}
+			cred := Cred{ID: client, OK: true}
+			redirect := fmt.Sprintf("https://c%d.example/cb", client)
+			p := Params{Redirect: redirect, RespType: "code", Scopes: "openid email", State: "st-1", Resources: rs}
+			nav := g.do(Op{Kind: "Authorize", Client: client, Params: p, PolicyAvail: true, Pol: Pol{Kind: "PolSuccess", Sub: "alice", Granted: "openid email", Resources: rs}})
+			tok := g.do(Op{Kind: "Token", Grant: "authorization_code", Cred: cred, Code: nav.NCode, Redirect: redirect, HG: "HgOk", BA: "BaApprove"})
+			if tok.Kind != "Tokens" || tok.Rt == 0 {
+				panic(fmt.Sprintf("c10 full-grant scenario: no refresh token: %+v", tok))
+			}
+			rt := tok.Rt
+			refresh := func(res []string) {
+				o := g.do(Op{Kind: "Token", Grant: "refresh_token", Cred: cred, Refresh: rt, Resources: res, HG: "HgOk", BA: "BaApprove"})
+				if o.Kind == "Tokens" {
+					if o.Rt != 0 {
+						rt = o.Rt
+					}
+					g.do(Op{Kind: "Introspect", Cred: cred, Tok: PTok{Kind: "PExact", H: o.At}, Allowed: true})
+				}
+			}
+			for _, sub := range subsets {
+				refresh(sub)
+				for _, one := range rs {
+					refresh([]string{one})
+				}
+				refresh(nil)
+			}
+			ctx.AddCase(g.Case(fmt.Sprintf("scenario:return-to-full-grant/c%d/%s", client, fl)))
+			ctx.AddStats(g.stats)
+		}
+	}
+}
